@@ -258,26 +258,3 @@ Fixpoint with_verdicts (st : mstate) (steps : list step) : list (step * bool) :=
 (* ---- side conditions of the partial theorems ---- *)
 Definition no_rbto (steps : list step) : bool :=
   forallb (fun p => match snd p with ORollbackTo _ => false | _ => true end) steps.
-
-(* the last write of the transaction to (t, pk) is a delete *)
-Definition own_deleted (t : tid) (pk : Z) (log : list wentry) : bool :=
-  fold_left (fun acc w => if i3_eqb (w_tid w) t && (w_pk w =? pk)%Z then is_del (w_kind w) else acc) log false.
-
-(* the statement looks up (duplicate-key / must-exist test) a key the transaction itself deleted *)
-Definition get_quirk (x : mtx) (o : op) : bool :=
-  match o with
-  | OInsert t pk _ | OUpsert t pk _ => own_deleted t pk (x_log x)
-  | OInsert2 t pk1 _ pk2 _ => own_deleted t pk1 (x_log x) || own_deleted t pk2 (x_log x)
-  | OInsertAuto t _ => own_deleted t (tg t (x_maxpk x) + 1)%Z (x_log x)
-  | _ => false
-  end.
-Definition quirk_step (st : mstate) (p : step) : bool :=
-  match tg (fst p) (m_sess st) with
-  | Some x => get_quirk x (snd p)
-  | None => false
-  end.
-Fixpoint quirk_free (st : mstate) (steps : list step) : bool :=
-  match steps with
-  | [] => true
-  | p :: r => negb (quirk_step st p) && quirk_free (fst (mstep st p)) r
-  end.
